@@ -217,7 +217,7 @@ class Body:
     def diverging_blocks(self):
         """reachable non-cleanup blocks with no successors that are not returns (panic / unreachable / diverging call)"""
         return [b for b in sorted(self.reachable)
-                if not self.succ[b] and self.blocks[b]["term"]["k"] != "return"]
+                if not self.succ[b] and self.blocks[b]["term"]["k"] not in ("return", "unreachable")]
 
     def _dominators(self, succ, roots, nodes):
         # iterative dataflow dominators
